@@ -51,7 +51,10 @@ func (g *G) tErrorSite() []*S {
 	bad := g.fresh("bad")
 	defBad := LocalFn(bad, nil, true, append(step("bad"), raise...)...)
 	var body []*S
-	kind := g.pick(13)
+	kind := g.pick(15)
+	if kind >= 13 {
+		return g.closeRaisesDuringReturn()
+	}
 	switch kind {
 	case 0:
 		// inside a binary / unary metamethod
@@ -301,4 +304,52 @@ func (g *G) tPoolStress() []*S {
 			ForNum("q", Un("len", Var(fs)), Int(1), Int(-1), Emit(Call(Idx(Var(fs), Var("q"))))),
 			Emit(Call(Idx(Var(fs), Int(1))))}
 	}
+}
+
+
+// tLongHistory: a long sequence of errors raised by host (Go) functions and caught in the same thread —
+// by pcall, by xpcall with a handler, by coroutine.resume and through coroutine.wrap — followed by ordinary nested
+// calls: nothing may accumulate.  Only aggregates are emitted.
+func (g *G) tLongHistory() []*S { return g.longHistory(g.pick(7)) }
+
+func (g *G) longHistory(variant int) []*S {
+	g.feat("error")
+	g.feat("loop")
+	g.sites["site:long-history"]++
+	n := int64(1200 + g.pick(200))
+	if longHistory > 0 && g.chance(25) {
+		n = int64(longHistory + g.pick(300))
+	}
+	cnt, bad := g.fresh("cnt"), g.fresh("bad")
+	var catch []*S // statements of the loop body; they set ok, e
+	switch variant {
+	case 0:
+		catch = []*S{Local([]string{"ok", "e"}, CallN("pcall", Var("error"), Var("i")))}
+	case 1:
+		catch = []*S{Local([]string{"ok", "e"}, CallN("pcall", Fn(nil, false, CallS(CallN("error", Var("i"), Int(0))))))}
+	case 2:
+		catch = []*S{Local([]string{"ok", "e"}, CallN("pcall", Var("assert"), Bool(false), Var("i")))}
+	case 3:
+		// a failing library call (the message is not observed, only that it failed)
+		catch = []*S{Local([]string{"ok", "m"}, CallN("pcall", g.pickE([]*E{Var("setmetatable"), Var("ipairs"), Dot(Var("string"), "rep"), Var("rawset")}))),
+			Local1("e", Bin("and", Bin("eq", CallN("type", Var("m")), Str("string")), Var("i")))}
+	case 4:
+		catch = []*S{Local([]string{"ok", "e"}, CallN("xpcall", Var("error"), Fn([]string{"m"}, false, Return(Var("m"))), Var("i")))}
+	case 5:
+		// through a coroutine: resume returns false, the value
+		catch = []*S{Local([]string{"ok", "e"}, co("resume", co("create", Var("error")), Var("i")))}
+	default:
+		// through a wrapped coroutine, the error re-raised in the caller and caught by pcall
+		catch = []*S{Local([]string{"ok", "e"}, CallN("pcall", co("wrap", Fn([]string{"v"}, false, CallS(CallN("error", Tbl(NV("v", Var("v"))))))), Var("i"))),
+			Assign1(Var("e"), Bin("and", Bin("eq", CallN("type", Var("e")), Str("table")), Dot(Var("e"), "v")))}
+	}
+	body := append(catch, If(Bin("and", Un("not", Var("ok")), Bin("eq", Var("e"), Var("i"))), []*S{Assign1(Var(cnt), Bin("add", Var(cnt), Int(1)))}, []*S{Assign1(Var(bad), Bin("add", Var(bad), Int(1)))}))
+	nest := g.fresh("nest")
+	return []*S{Local([]string{cnt, bad}, Int(0), Int(0)),
+		ForNum("i", Int(1), Int(n), nil, body...),
+		Emit(Var(cnt), Var(bad)),
+		// afterwards everything still works: nested Lua and host calls, protected calls, coroutines
+		LocalFn(nest, []string{"k"}, false, If(Bin("eq", Var("k"), Int(0)), []*S{Return(CallN("tostring", Int(0)))}, nil), Return(Bin("concat", CallN("tostring", Var("k")), CallN(nest, Bin("sub", Var("k"), Int(1)))))),
+		Emit(Call(Var(nest), Int(int64(5+g.pick(20)))), CallN("pcall", Var("tostring"), Int(12)), CallN("select", Str("#"), CallN("pcall", Dot(Var("string"), "rep"), Str("x"), Int(3)))),
+		Emit(co("resume", co("create", Fn([]string{"a"}, false, Return(CallN("type", Var("a")), CallN("pcall", Var("error"), Str("z"), Int(0))))), Int(1)))}
 }
